@@ -614,13 +614,13 @@ WithConstants(d, id, v) ==
   IN S(v.n \o [i \in 1..Len(cs) |-> cs[i].id],
        v.c \o [i \in 1..Len(cs) |-> U(StripZeros(ConsLimbs(d, chain, cs[i])))])
 
-RECURSIVE EncLevels(_, _, _, _, _, _, _)
-(* levels k down to 1: the bytes of level k+1.. become the payload of level k *)
-EncLevels(d, chain, k, val, pl, ov, fuel) ==
+RECURSIVE EncLevels(_, _, _, _, _, _, _, _)
+(* levels k down to `stop`: the bytes of level k+1.. become the payload of level k *)
+EncLevels(d, chain, k, stop, val, pl, ov, fuel) ==
   LET st == EncScope(d, chain[k], val, pl, ov, fuel)
       miss == IF k < Len(chain) /\ ~HasPayload(chain[k]) /\ pl # <<>> THEN {"Unsupported"} ELSE {}
-  IN IF k = 1 THEN ERes(st.faults \cup miss, st.out)
-     ELSE LET up == EncLevels(d, chain, k - 1, val, st.out, ov, fuel)
+  IN IF k <= stop THEN ERes(st.faults \cup miss, st.out)
+     ELSE LET up == EncLevels(d, chain, k - 1, stop, val, st.out, ov, fuel)
           IN ERes(st.faults \cup miss \cup up.faults, up.bytes)
 
 EncodeTypeF(d, id, v, ov, fuel) ==
@@ -632,7 +632,7 @@ EncodeTypeF(d, id, v, ov, fuel) ==
       val == WithConstants(d, id, v)
       plOk == ~HasPayload(leaf) \/ (Has(v, "payload") /\ Get(v, "payload").t = "b")
       pl == IF HasPayload(leaf) /\ plOk THEN Get(v, "payload").b ELSE <<>>
-      r == EncLevels(d, chain, Len(chain), val, pl, ov, fuel - 1)
+      r == EncLevels(d, chain, Len(chain), 1, val, pl, ov, fuel - 1)
   IN IF plOk THEN r ELSE ERes(r.faults \cup {"BadValue"}, r.bytes)
 
 EncodeWith(d, id, v, ov) == EncodeTypeF(d, id, v, ov, 6)
